@@ -6,7 +6,8 @@
    GENERATED FILES is decided on the implementation by the metamorphic correspondence of this property (permutations,
    partitions into import trees, all targets, banner line excluded). *)
 From Coq Require Import List String Bool Arith Permutation.
-From PDV Require Import Idl.GrammarDefs Idl.Lexer Idl.ParserG Idl.LayoutFree.
+From Coq Require Import Ascii.
+From PDV Require Import Lang.Comment Idl.GrammarDefs Idl.Lexer Idl.ParserG Idl.LayoutFree Idl.LexParseProofs Idl.LexLemmas Idl.LexStable Gen.Grammar.
 From PDV Require Import Lib.StrUtil Idl.Cst Idl.Ast Idl.Resolver Idl.ResolverProofs Idl.Visitor Idl.Front Idl.ChecksProofs Idl.LayoutProofs.
 Import ListNotations.
 Open Scope string_scope. Open Scope list_scope.
@@ -50,3 +51,39 @@ Theorem C11_every_parse_is_layout_free : forall rules toks1 toks2, Forall2 same_
   forall fuel g pos, Forall2 rel (ParserG.parse rules toks1 fuel g pos) (ParserG.parse rules toks2 fuel g pos).
 Proof. exact parse_layout_free. Qed.
 Print Assumptions C11_every_parse_is_layout_free.
+
+(* line breaks isolate: for the token rules of Idl.g4 as translated on this run (table_ok is decided by computation), if the tokenisation of
+   x ++ newline ++ b has a lexeme boundary at |x| and no lexical error before it, the tokenisation of x ++ newline ++ b' starts with the SAME lexemes
+   (types, texts, lines, columns) for ANY b': re-indenting the following lines, inserting blank lines, changing anything after a line break
+   cannot change the tokens in front of it ... *)
+Theorem C11_line_break_isolates_what_precedes : forall la x b b' k k' line col rest,
+  lex_from k lexer_rules (x ++ String nl b) line col = Some (la ++ rest) -> concat_lexemes la = x -> no_err la ->
+  String.length (x ++ String nl b') <= k' ->
+  exists rest', lex_from k' lexer_rules (x ++ String nl b') line col = Some (la ++ rest').
+Proof. apply lex_prefix_stable. vm_compute. reflexivity. Qed.
+Print Assumptions C11_line_break_isolates_what_precedes.
+
+(* ... for every rule table that passes the computable check, and every boundary character *)
+Theorem C11_boundary_character_isolates : forall c rules, table_ok c rules = true ->
+  forall la x b b' k k' line col rest,
+    lex_from k rules (x ++ String c b) line col = Some (la ++ rest) -> concat_lexemes la = x -> no_err la -> String.length (x ++ String c b') <= k' ->
+    exists rest', lex_from k' rules (x ++ String c b') line col = Some (la ++ rest').
+Proof. exact lex_prefix_stable. Qed.
+Print Assumptions C11_boundary_character_isolates.
+
+(* ... and what stands in front of a lexeme boundary reaches the lexemes after it only through the start position (line, column) *)
+Theorem C11_lexing_continues_from_a_boundary : forall rules la x cy y k line col rest,
+  lex_from k rules (x ++ String cy y) line col = Some (la ++ rest) -> concat_lexemes la = x ->
+  let '(l2, c2) := advance x line col in lex_from (k - List.length la) rules (String cy y) l2 c2 = Some rest.
+Proof. exact lex_suffix. Qed.
+Print Assumptions C11_lexing_continues_from_a_boundary.
+
+(* the facts about the pattern matcher behind it (every pattern): a match of length n depends on the first n characters only;
+   a pattern that never accepts c has no match that crosses an occurrence of c *)
+Theorem C11_match_depends_on_its_own_characters : forall p u v n, n <= String.length u -> (In n (mlens p (u ++ v)%string) <-> In n (mlens p u)).
+Proof. exact mlens_prefix. Qed.
+Print Assumptions C11_match_depends_on_its_own_characters.
+
+Theorem C11_match_stops_at_excluded_character : forall c p u r n, avoids c p = true -> In n (mlens p (u ++ String c r)%string) -> n <= String.length u.
+Proof. exact mlens_stops_at. Qed.
+Print Assumptions C11_match_stops_at_excluded_character.
